@@ -49,6 +49,14 @@ Theorem C16_override_strict : forall g p w r v,
 Proof. exact merge_strict. Qed.
 Print Assumptions C16_override_strict.
 
+(* by value (no request_uri in the query): the effective parameters are exactly the object's, plus the
+   redirect_uri the endpoint resolves; nothing the query alone carried survives *)
+Theorem C16_override_by_value : forall g d st outer w st' r via v,
+  authz_parse g d st outer w = (st', Acc r, via) -> assoc k_request_uri outer = None -> r_vr r = Some v ->
+  via = None /\ forall k, has_key k (r_params r) = true -> has_key k (v_claims v) = true \/ k = k_redirect_uri.
+Proof. exact value_strict. Qed.
+Print Assumptions C16_override_by_value.
+
 (* C16_cross_client — an accepted object never names another client than the one the request is attributed to,
    and is never keyed by anything but that client's keys: objects naming / signed by another client are refused *)
 Theorem C16_cross_client : forall g d t0 ops, cfg_wf g = true ->
